@@ -157,3 +157,73 @@ func c11Round5(c *Ctx) {
 		c.Check(len(inner.Ins) == 1, "C11.outcome", fname(fn)+":returns the tally's own verdict", c.P.Pos(fn.Pos()), "every error returned is the one processCommitments returned", "the call of processCommitments was not found in ProcessCommitments")
 	}
 }
+
+// c03Round5 (seed C03r5/14; run under C03, C02 and C06): pathbadger keeps the nodes a pending root inherited from
+// finalized versions in the finalized keyspace only. GetNode for a pending root therefore falls back to the finalized
+// keyspace when the pending lookup reports "key not found": from that answer no exit is reached without a finalized
+// lookup (otherwise a lazily loaded pending root reads "node not found" for live keys).
+func pendingFallbackRule(c *Ctx, rule string) {
+	fn := c.needFn(rule, "storage/mkvs/db/pathbadger.(*badgerNodeDB).GetNode")
+	if fn == nil {
+		return
+	}
+	var fin, pend []ssa.Instruction
+	for _, call := range callsIn(fn) {
+		if !strings.HasSuffix(calleeName(call), "badger/v4.(*Txn).Get") {
+			continue
+		}
+		a := allArgs(call)
+		s := vstr(a[len(a)-1])
+		if strings.Contains(s, "pendingNodeKeyFmt") {
+			pend = append(pend, call)
+		}
+		if strings.Contains(s, "finalizedNodeKeyFmt") && !strings.Contains(s, "rootNode") && !strings.Contains(s, "pendingNodeKeyFmt") {
+			fin = append(fin, call)
+		}
+	}
+	var notFound []Edge
+	for _, b := range blocksIP(fn) {
+		iff := lastIf(b)
+		if iff == nil {
+			continue
+		}
+		bo, ok := iff.Cond.(*ssa.BinOp)
+		if !ok {
+			continue
+		}
+		for _, pair := range [][2]ssa.Value{{bo.X, bo.Y}, {bo.Y, bo.X}} {
+			if !isGlobalLoad(pair[1], "github.com/dgraph-io/badger/v4.ErrKeyNotFound") && !strings.HasSuffix(vstr(pair[1]), "badger/v4.ErrKeyNotFound") {
+				continue
+			}
+			// the error tested is the pending lookup's own result (not a later merge of several lookups' errors)
+			fromPending := false
+			if ex, ok := pair[0].(*ssa.Extract); ok {
+				for _, p := range pend {
+					if ex.Tuple == p.(ssa.Value) {
+						fromPending = true
+					}
+				}
+			}
+			if !fromPending {
+				continue
+			}
+			switch bo.Op.String() {
+			case "==":
+				notFound = append(notFound, Edge{b, 0})
+			case "!=":
+				notFound = append(notFound, Edge{b, 1})
+			}
+		}
+	}
+	inst := fname(fn) + ":pending lookup not found⇒finalized keyspace consulted"
+	if len(pend) == 0 || len(fin) == 0 || len(notFound) == 0 {
+		c.Fail(rule, inst, c.P.Pos(fn.Pos()), "GetNode has no finalized-keyspace lookup after a pending-keyspace lookup that reports 'key not found' (pending lookups="+itoa(len(pend))+", finalized lookups="+itoa(len(fin))+", not-found tests="+itoa(len(notFound))+"): a pending root cannot load the nodes it inherited from finalized versions")
+		return
+	}
+	hit := Reach(fn, nil, notFound, func(i ssa.Instruction) bool { _, r := i.(*ssa.Return); return r }, NewCut().AddInstr(fin...))
+	site := c.P.Pos(fn.Pos())
+	if hit != nil {
+		site = c.P.InstrPos(hit)
+	}
+	c.Check(hit == nil, rule, inst, site, "after 'key not found' in the pending keyspace every exit passes a finalized-keyspace lookup", "GetNode can return after the pending lookup reported 'key not found' without consulting the finalized keyspace: nodes a pending root inherited from finalized versions read as missing")
+}
